@@ -80,3 +80,21 @@ Proof.
   - destruct (every_exception_has_a_documented_status wf c (Hex c eq_refl)) as [E|[E|(E & Hv & Hw)]]; try (rewrite E in H; discriminate).
     split; [exact Hw|right; exists c; auto].
 Qed.
+
+(* ---- C18 ---- *)
+Lemma options_reach_computed : every_option_reaches_validate = true.
+Proof. vm_compute. reflexivity. Qed.
+Lemma keywords_understood_computed : every_keyword_understood = true.
+Proof. vm_compute. reflexivity. Qed.
+
+Theorem option_reaches_validate (H:every_option_reaches_validate = true) d : In d cli_dests ->
+  In d structural_dests \/ exists k, In (d, k) cli_passed.
+Proof.
+  intros Hd. unfold every_option_reaches_validate in H. rewrite forallb_forall in H. specialize (H d Hd).
+  apply orb_true_iff in H as [H|H]; [left; apply smem_In; exact H|right].
+  apply existsb_exists in H as ([a k] & Hin & E). simpl in E. apply String.eqb_eq in E. subst a. exists k. exact Hin.
+Qed.
+Theorem keyword_understood (H:every_keyword_understood = true) d k : In (d, k) cli_passed -> In k validate_keywords.
+Proof.
+  intros Hin. unfold every_keyword_understood in H. rewrite forallb_forall in H. specialize (H (d, k) Hin). apply smem_In. exact H.
+Qed.
